@@ -21,7 +21,7 @@ RULE = ('0..4 Frames/Series with index and column labels drawn from shared pools
 ASSUMPTIONS = ['order of the aligned-axis union over non-identical inputs is not compared (as a set); identical inputs keep order',
                'values compared with == (NaN-aware); fill cells must be the fill value']
 
-KINDS = ('bool', 'int64', 'float64', '<U3', 'object', 'int32')
+KINDS = ('bool', 'int64', 'float64', '<U3', 'object', 'int32', 'M8[D]', 'M8[s]')   # (two datetime units: same kind, unlike dtypes)
 FILLS = [float('nan'), 0, 'ff', None, -1.5]
 INIT_ERRORS = ('ErrorInitFrame', 'ErrorInitIndex', 'ErrorInitIndexNonUnique', 'ErrorInitSeries')
 
@@ -55,6 +55,15 @@ def frame_input(draw, rpool, cpool, force_cols=None, force_layout=None, common=N
     return {'rpos': rpos, 'cpos': cpos, 'blocks': blks, 'name': draw(st.sampled_from([None, 'n1', 'n2', 'n3']))}
 
 
+def _kind_of(dt):
+    """The generator kind that produced an array of this dtype."""
+    if dt == np.int32:
+        return 'int32'
+    if dt.kind == 'M':
+        return 'M8[D]' if dt == np.dtype('M8[D]') else 'M8[s]'
+    return {'b': 'bool', 'i': 'int64', 'f': 'float64', 'U': '<U3', 'O': 'object'}[dt.kind]
+
+
 @st.composite
 def concat_cases(draw):
     # decisive choices first (late draws are pinned to their first option for a share of Hypothesis's examples)
@@ -84,7 +93,7 @@ def concat_cases(draw):
                 blks = []
                 for b in ref['blocks']:
                     w = 1 if b.ndim == 1 else b.shape[1]
-                    kind = {'b': 'bool', 'i': 'int64', 'f': 'float64', 'U': '<U3', 'O': 'object'}[b.dtype.kind] if b.dtype != np.int32 else 'int32'
+                    kind = _kind_of(b.dtype)
                     vals = draw(st.lists(gen.elements(kind), min_size=len(fi['rpos']) * w, max_size=len(fi['rpos']) * w))
                     blks.append(gen.to_array(kind, vals, None if b.ndim == 1 else (len(fi['rpos']), w)))
                 fi['blocks'] = blks
@@ -92,7 +101,7 @@ def concat_cases(draw):
                 # same per-column dtypes as the first input, different block boundaries
                 cols = []
                 for c in gen.block_columns(ref['blocks']):
-                    kind = {'b': 'bool', 'i': 'int64', 'f': 'float64', 'U': '<U3', 'O': 'object'}[c.dtype.kind] if c.dtype != np.int32 else 'int32'
+                    kind = _kind_of(c.dtype)
                     cols.append(draw(gen.column(kind, len(fi['rpos']))))
                 fi['blocks'] = draw(gen.relayout(cols)) if cols else []
             else:
